@@ -675,6 +675,8 @@ class TaskScenario(ScenarioData):
             previous_effort = self.doneEffort
 
             self.currentSlotIdx += delta
+            # The mid-slot offset of the dependency bound belongs to the slot the walk began in
+            self.slotStartOffset = 0.0
             if self.currentSlotIdx < lowerLimit or self.currentSlotIdx > upperLimit:
                 self.isRunAway = True
                 return False
